@@ -108,4 +108,12 @@ CHECKS = {
             dict(name="TestC09KeyCallback", quick=dict(checks=5000, timeout=600), thorough=dict(checks=60000, shards=8, timeout=3000)),
             dict(name="TestC09Handshake", quick=dict(checks=300, timeout=600), thorough=dict(checks=3000, shards=8, timeout=3000)),
         ]),
+    "C14": dict(
+        pkg="c14", level="exploration", helpers=["vserver"],
+        technique="property-based testing (rapid), model-based: generated histories of connection attempts of every kind against a real server process, compared step by step with a set model of the open authenticated connections (the server's reported count, acceptance of new logins, bursts)",
+        level_text="Each generated history runs against a fresh server with a small MaxConnections; the harness is the SSH client and ends connections gracefully or with a TCP reset. After every step the count the server reports must equal the model, a login must be accepted exactly when a slot is free, a burst may never establish more sessions than free slots, and finally every slot must be given back.",
+        level_note="The reported count is read from the MAPREDUCE:STATS lines the server logs on every change (polled up to 5 s). During a burst only the upper bound and progress are asserted.",
+        tests=[
+            dict(name="TestC14History", quick=dict(checks=250, shards=6, timeout=900), thorough=dict(checks=500, shards=12, timeout=3400)),
+        ]),
 }
